@@ -215,11 +215,14 @@ def run_seeded(c):
             D = grid.distance()
             order = [["I", "rw", "II"], ["II", "rw", "I"], ["rw", "I", "II"], ["I", "II", "rw"]][c["m"] % 4]
             steps = []
+            # every second group of four chains asks for MORE THAN 1000 rewirings per geographical step
+            its = 2 if (c["m"] // 4) % 2 == 0 else 1000 + 150 * (1 + c["m"] % 5)
+            rec["its"] = its
             for op in order:
                 if op == "rw":
                     net.randomly_rewire(4)
                 else:
-                    getattr(net, "randomly_rewire_geomodel_" + op)(D, 2, 1.0e6)
+                    getattr(net, "randomly_rewire_geomodel_" + op)(D, its, 1.0e6)
                 steps.append(enc.ints(net.adjacency))
             rec["steps"], rec["A1"] = steps, steps[-1]
         elif k == "WattsStrogatz":
